@@ -296,9 +296,32 @@ def work_text(job):
     return acc.result()
 
 
+def work_trim_ws(job):
+    """TRIM removes the plain space (U+0020) only: other white space characters are characters like any other"""
+    acc = Acc()
+    ev = feval.Evaluator()
+    alpha = ['a', ' ', '\t', '\u00a0', '\u3000', '\n']
+    for L in range(0, 5):
+        for p in itertools.product(alpha, repeat=L):
+            s = ''.join(p)
+            exp = ' '.join(x for x in s.split(' ') if x)
+            for f, e in (('=TRIM(A1)', exp), ('=LEN(TRIM(A1))', len(exp))):
+                o = ev.run(f, {'A1': s})
+                acc.add('evaluations')
+                acc.add('states')
+                acc.add('distinct_nontrivial', int(any(c in s for c in '\t\u00a0\u3000\n')))
+                if o[0] != 'ok' or not W.veq(o[1], e):
+                    acc.violation(dict(kind='slice', fn='TRIM', verdict='wrong-value', formula=f, env={'A1': s}, observed=jsonable(o[:2]),
+                                       expected=jsonable(e)),
+                                  f'{f} with A1={s!r} = {o[:2]!r}, expected {e!r} (only U+0020 is trimmed)')
+    acc.counts['transitions'] = acc.counts.get('evaluations', 0)
+    return acc.result()
+
+
 def run(ctx):
     m = 64
     ml = 5 if ctx.thorough else 4
+    ctx.pmap(work_trim_ws, [(0,)], timeout=1200)
     ctx.pmap(work_slicing, [((k + ctx.seed) % m, m, ml) for k in range(m)], timeout=6000)
     ctx.pmap(work_search, [(k, m, ml) for k in range(m)], timeout=6000)
     ctx.pmap(work_numbers, [(0,)], timeout=600)
